@@ -88,7 +88,8 @@ DICT = {
            "<span>", ' xml:space="preserve"', ' tts:position="center"', ' tts:direction="AUTO"', ' ttp:cellResolution="0 0"',
            ' tts:lineHeight="125%"', ' ittp:activeArea="1% 2% 300% 4%"', ' ttp:tickRate="0"', ' ttp:frameRateMultiplier="1 0"', ' ttp:frameRateMultiplier="0 1"', "&#0;", "<!-- c -->", "<?pi?>",
            "<span>" * 400 + "x" + "</span>" * 400, ' begin="1.0001s" end="1.0004s"', ' begin="1.0006s" end="1.0012s"', ' dur="0.0007s"', '<set tts:color="red" dur="1s"/>', ' end="0.0003s"', ' tts:display="block"', ' tts:textAlign="justify"', ' tts:writingMode="x"',
-           ' begin="1f" ttp:frameRate="0"', ' tts:textShadow="1px 1px"', ' tts:fontFamily="X"', ' tts:origin="1px"', ' tts:padding="1px 2px 3px 4px 5px"'],
+           ' begin="1f" ttp:frameRate="0"', ' tts:textShadow="1px 1px"', ' tts:fontFamily="X"', ' tts:origin="1px"', ' tts:padding="1px 2px 3px 4px 5px"', ' tts:textEmphasis="auto"', ' tts:textEmphasis="before"',
+           '<set tts:textEmphasis="auto red"/>'],
 }
 BOUNDARY = ["0", "-1", "99", "100000000000000000000", "100000000000000000001", "123456789012345678", "999", "00", "1e5", ""]
 
@@ -509,6 +510,8 @@ def _tti(sn=1, ebn=0xFF, cs=0, tci=(0, 0, 1, 0), tco=(0, 0, 2, 0), vp=20, jc=2, 
 
 # the degenerate inputs the property names, and one input per robustness defect found so far: a seconds-long regression tier
 CATALOG = [
+  ("imsc", (TT % ("", '<head><layout><region xml:id="r1" tts:textEmphasis="auto"/></layout></head><body region="r1"><div><p>x</p></div></body>')).encode()),
+  ("imsc", (TT % ("", '<head><styling><initial tts:textEmphasis="before"/></styling></head><body><div><p>x</p></div></body>')).encode()),
   ("srt", b""), ("srt", b"\n\n"), ("srt", b"1\n"), ("srt", b"1\n00:00:01,000 --> 00:00:02,000\n"),
   ("srt", b"1\n00:00:01,000 --> 00:00:02,000\n\n2\n00:00:02,000 --> 00:00:03,000\nx\n"),
   ("srt", b"1\n00:00:01,000 --> 00:00:02,000\n</b>\nw\n"), ("srt", b"1\n00:00:01,000 --> 00:00:02,000\n<i>a</i></i></b>b\n"),
